@@ -25,6 +25,11 @@ CLAIMS["C14"] = ("7.14", "Theorems by induction over arbitrary relax/restore his
 CLAIMS["C20"] = ("7.20", "proof (partial): theorems C20_layers, C20_get(_first/_unknown/_first_match), C20_manifest_accept/reject, C20_descriptors_by_kind, C20_annotations_* hold for all operation sequences and annotation histories of a list-state-machine model of Builder/Artifact/annotations; the archive bytes (tar, JSON manifest, sha256, protobuf, RFC3339) are not modelled and enter only as hypotheses (digest injective on the stored blobs, decode.encode = id, parse.render = id) that the correspondence run re-checks on every case. Correspondence: real local OCI archives built with Builder and reopened with Artifact::from_oci_archive; every getter x every stored digest + one unknown digest; independent sha256 and RFC3339 re-computation in Python; non-OMMX archives.",
          "Identical blobs share a digest, so only the first layer's kind and annotations are reachable by digest (observation, not a violation). -0.0 in map values is read back as +0.0 by prost (identified with 0, DESIGN 3.2). ocipkg, tar, sha256, file system: exhibited by correspondence only.")
 
+CLAIMS["C16"] = ("7.16", "proof: for all valid intervals of every shape (finite, half-infinite, unbounded, degenerate, sign-crossing) the model's sum, product (with 0*inf=NaN and NaN-ignoring min/max), n-th power for every n, and non-zero scaling return a valid interval containing the pointwise result; evaluate_bound returns a valid enclosure of denote f over the whole box for every function message; as_integer_bound keeps every integer; content_factor is positive, integralising, 1 on the zero function and divides every positive integralising rational (17 theorems, closed under the global context). Correspondence: exact equality of SDK and model intervals plus exact sample-point enclosure on dyadic inputs; relative-2^-52 comparison for content_factor on fractions with denominators <= 60.",
+         "Not modelled: endpoint rounding (the code does not round outward; a labelled rounded-stream TEST only), u8 exponent truncation above 255, Rational64::approximate_float and i64 overflow in content_factor, -0.0. Bound*0.0 on infinite intervals panics in the code and is excluded by the k<>0 hypothesis, as the property states. The exact stream demands interval equality with the model, so a tighter-but-correct future interval would be reported (clause 'interval').")
+CLAIMS["C19"] = ("7.19", "For the QPLIB reader model: the objective is 1/2 x'Q0x + b0'x + q0 from the listed lower-triangle entries (diagonal halved), with default and non-default b0 and the sense; exactly one <=0 constraint per finite side, g - c_u with id i and -g + c_l with id m+i; the infinity threshold, the variable-type rules, the error line-number discipline and the head-line error classes are proved for all inputs (11 theorems). Two-phase correspondence: Coq renders the text from an abstract model with an independent writer, the SDK loads it, Coq judges the instance against meaning(M) and against the model reader, on all 120 type codes and one fault per error class (incl. negative counts).",
+         "Not proved: load.render = meaning (Tier B; checked per case); error class at deep positions. Exact-decimal literals (no f64 rounding on the cases run); single separators in entry lines. Observations outside the letter of the property (index 0 / out-of-range index / short entry lines panic, repeated separators rejected, 4-letter type code accepted) are probed with VERIF_C19_PROBE=1 and recorded in DESIGN.md, not asserted.")
+
 PENDING = {
 }
 
